@@ -23,8 +23,17 @@ package main
 //
 //   c06.seq <tag> <keyobj> <k> { <store> <the 18 tokens of a c06.hs after its tag> } x k
 //
+// <time>: the server's clock. A number: the server_time it announces, a date that has nothing to do with this
+// machine's clock (such a server's idea of "now" cannot be placed: it is not asked whether it would accept the
+// msg_id of the first encrypted request). `now+K` / `now-K`: a server whose clock is K seconds ahead of / behind
+// the clock of this machine (= the client's) — it announces now±K at the moment it answers req_DH_params, its clock
+// runs on in real time from there, and like every MTProto server it ignores a message whose msg_id is more than
+// 300 s behind or more than 30 s ahead of its clock.
+//
 // <keyobj>: how the caller holds the public key over the exchanges (hsKeyObj: fresh | slot | setn);
-// <store>: how the client's session storage says "nothing stored" (hsStore.Mode: notfound | nil | fail). Every
+// <store>: the client's configuration: how its session storage says "nothing stored" (hsStore.Mode: notfound | nil |
+// fail), optionally followed by `+<warnings>`: what the application does with the client's Warnings channel during
+// the exchange (hsWarnMode: nil | buffered | unread | drained; default nil). Every
 // exchange has its own conformant server with its own RSA key. Result: the results of the exchanges, " | " between
 // them. A storage that cannot be read (fail) must make NewMTProto give up: res=err:new, nothing sent or stored.
 //
@@ -45,8 +54,31 @@ import (
 )
 
 var (
-	c06Last []*hsRun // the runs of the last operation, one per exchange
+	c06Last      []*hsRun // the runs of the last operation, one per exchange
+	c06LastClock []string // … and what each server says about the msg_id of the first encrypted request ("" = accepted)
 )
+
+// c06SplitCfg: `<store>` or `<store>+<warnings>`
+func c06SplitCfg(cfg string) (store, warn string) {
+	if i := strings.IndexByte(cfg, '+'); i >= 0 {
+		return cfg[:i], cfg[i+1:]
+	}
+	return cfg, "nil"
+}
+
+func c06CfgOk(cfg string) bool {
+	st, wm := c06SplitCfg(cfg)
+	ok := false
+	for _, m := range hsStoreModes {
+		ok = ok || m == st
+	}
+	for _, m := range hsWarnModes {
+		if m == wm {
+			return ok
+		}
+	}
+	return false
+}
 
 func c06BigHex(x *big.Int) string { return hexD(x.Bytes()) }
 
@@ -69,7 +101,7 @@ func (c *hsCase) op(tag string) string {
 		hexD(c.D.Nonce), hexD(c.D.NewNonce), hexD(c.D.B), strconv.FormatInt(c.D.PadSeed, 10), hexD(hsPad16(c.D.PadSeed)),
 		c06BigHex(c.S.Key.N), strconv.Itoa(c.S.Key.E), c06BigHex(c.S.Key.D),
 		hexD(c.S.ServerNonce), strconv.FormatUint(c.S.P, 10), strconv.FormatUint(c.S.Q, 10),
-		strconv.Itoa(int(c.S.G)), hexD(hsFixed(c.S.A, 256)), c06BigHex(c.S.DhPrime), strconv.Itoa(int(c.S.ServerTime)),
+		strconv.Itoa(int(c.S.G)), hexD(hsFixed(c.S.A, 256)), c06BigHex(c.S.DhPrime), c06TimeToken(&c.S),
 		hexD(c.S.Pad), min, showList(xf)}, " ")
 }
 
@@ -105,7 +137,9 @@ func c06Parse(op []string) (*hsCase, bool) {
 		c.S.G = int32(atoi(op[13]))
 		c.S.A = new(big.Int).SetBytes(parseBytes(op[14]))
 		c.S.DhPrime = new(big.Int).SetBytes(parseBytes(op[15]))
-		c.S.ServerTime = int32(atoi(op[16]))
+		if !c06ParseTime(op[16], &c.S) {
+			return
+		}
 		c.S.Pad = parseBytes(op[17])
 		c.S.Minimal = op[18] == "1"
 		if op[19] != "-" {
@@ -131,6 +165,189 @@ func c06Parse(op []string) (*hsCase, bool) {
 			c.S.DhPrime.Sign() > 0 && bytes.Equal(c.Pad16, hsPad16(c.D.PadSeed))
 	}()
 	return c, ok
+}
+
+// the <time> token
+func c06TimeToken(s *hsSecrets) string {
+	if s.TimeRel {
+		return fmt.Sprintf("now%+d", s.ServerTime)
+	}
+	return strconv.Itoa(int(s.ServerTime))
+}
+
+func c06ParseTime(t string, s *hsSecrets) bool {
+	if strings.HasPrefix(t, "now+") || strings.HasPrefix(t, "now-") {
+		k, err := strconv.Atoi(t[3:])
+		if err != nil || k < -100000 || k > 100000 {
+			return false
+		}
+		s.TimeRel, s.ServerTime = true, int32(k)
+		return true
+	}
+	k, err := strconv.ParseInt(t, 10, 64)
+	if err != nil || k < 0 || k >= 1<<31 {
+		return false
+	}
+	s.TimeRel, s.ServerTime = false, int32(k)
+	return true
+}
+
+// The window in which an MTProto server accepts a msg_id, relative to its own clock (seconds): "a message is
+// ignored if its msg_id is more than 300 seconds behind or more than 30 seconds ahead of the server's time".
+const (
+	c06WindowBehind = 300
+	c06WindowAhead  = 30
+)
+
+// c06ClockOffsets: the server clocks (server minus client, seconds) a client that stamps its messages with ITS OWN
+// clock is compatible with: its msg_id is the local second, so seen from a server K seconds ahead it lies at
+// -K (give or take the second both sides round away): -300 <= -K+-1 and -K+-1 <= 30, K in [-29, 299]. Derived
+// from the window, with one more second of room; the ends, values around zero, and both halves in between.
+func c06ClockOffsets() []int {
+	lo, hi := -(c06WindowAhead - 2), c06WindowBehind-2
+	return []int{lo, lo + 3, lo + 8, lo / 2, -5, -1, 0, 1, 5, -lo / 2, -lo - 8, -lo, hi / 3, hi / 2, hi - 50, hi}
+}
+
+func c06RelClock(r *Rand, c *hsCase) {
+	offs := c06ClockOffsets()
+	c.S.TimeRel, c.S.ServerTime = true, int32(offs[r.Intn(len(offs))])
+}
+
+// c06ClockVerdict: would the server accept the msg_id of the client's first encrypted request? ("" = yes, or the
+// server's clock cannot be placed)
+func c06ClockVerdict(c *hsCase, run *hsRun) string {
+	if !c.S.TimeRel || len(run.Srv.Enc) == 0 || len(run.Srv.EncAt) == 0 || run.Srv.AuthKey == nil || run.Srv.TimeAt.IsZero() {
+		return ""
+	}
+	_, msgID, _, why := hsOpenClientFrameID(run.Srv.AuthKey, run.Srv.Enc[0])
+	if why != "" {
+		return ""
+	}
+	clock := float64(run.Srv.TimeSent) + run.Srv.EncAt[0].Sub(run.Srv.TimeAt).Seconds()
+	diff := float64(msgID>>32) + float64(uint32(msgID))/4294967296.0 - clock
+	if diff > c06WindowAhead || diff < -c06WindowBehind {
+		return fmt.Sprintf("the server (clock %+d s against the client's; it announced server_time %d) ignores the first encrypted request: its msg_id %d is %+.1f s from the server's clock, accepted are -%d..+%d",
+			c.S.ServerTime, run.Srv.TimeSent, msgID, diff, c06WindowBehind, c06WindowAhead)
+	}
+	return ""
+}
+
+// ---- Diffie-Hellman groups a conformant server may use ---------------------------------------------------
+//
+// The description asks of dh_prime: a 2048-bit safe prime (p and (p-1)/2 prime, 2^2047 < p < 2^2048) with g
+// generating the subgroup of prime order (p-1)/2: g a quadratic residue mod p, which for the allowed g = 2..7 is a
+// condition on p modulo 8, 3, 5, 24, 7. Telegram's datacenters use one such prime; any other is as conformant.
+// Finding a 2048-bit safe prime takes minutes, so besides Telegram's the two published ones of that size are used,
+// built from their defining formulas (RFC 3526 group 14: 2^2048 - 2^1984 - 1 + 2^64 ([2^1918 pi] + 124476);
+// RFC 7919 ffdhe2048: 2^2048 - 2^1984 + 2^64 ([2^1918 e] + 560316) - 1) and CHECKED to be safe primes here.
+
+// c06ScaledPi / c06ScaledE: floor(2^bits * pi), floor(2^bits * e)
+func c06ScaledPi(bits uint) *big.Int {
+	guard := uint(64)
+	one := new(big.Int).Lsh(big.NewInt(1), bits+guard)
+	arctanInv := func(x int64) *big.Int { // arctan(1/x) * 2^(bits+guard)
+		sum := new(big.Int)
+		term := new(big.Int).Div(one, big.NewInt(x))
+		x2 := big.NewInt(x * x)
+		for k := int64(0); term.Sign() != 0; k++ {
+			t := new(big.Int).Div(term, big.NewInt(2*k+1))
+			if k%2 == 0 {
+				sum.Add(sum, t)
+			} else {
+				sum.Sub(sum, t)
+			}
+			term.Div(term, x2)
+		}
+		return sum
+	}
+	pi := new(big.Int).Mul(big.NewInt(16), arctanInv(5))
+	pi.Sub(pi, new(big.Int).Mul(big.NewInt(4), arctanInv(239)))
+	return pi.Rsh(pi, guard)
+}
+
+func c06ScaledE(bits uint) *big.Int {
+	guard := uint(64)
+	term := new(big.Int).Lsh(big.NewInt(1), bits+guard)
+	sum := new(big.Int)
+	for k := int64(1); term.Sign() != 0; k++ {
+		sum.Add(sum, term)
+		term.Div(term, big.NewInt(k))
+	}
+	return sum.Rsh(sum, guard)
+}
+
+func c06IsSafePrime2048(p *big.Int) bool {
+	if p.BitLen() != 2048 || !p.ProbablyPrime(16) {
+		return false
+	}
+	q := new(big.Int).Rsh(p, 1)
+	return q.ProbablyPrime(16)
+}
+
+// c06GOk: the description's condition on g for a given safe prime
+func c06GOk(p *big.Int, g int) bool {
+	mod := func(m int64) int64 { return new(big.Int).Mod(p, big.NewInt(m)).Int64() }
+	switch g {
+	case 2:
+		return mod(8) == 7
+	case 3:
+		return mod(3) == 2
+	case 4:
+		return true
+	case 5:
+		m := mod(5)
+		return m == 1 || m == 4
+	case 6:
+		m := mod(24)
+		return m == 19 || m == 23
+	case 7:
+		m := mod(7)
+		return m == 3 || m == 5 || m == 6
+	}
+	return false
+}
+
+type c06Group struct {
+	Name string
+	P    *big.Int
+	Gs   []int // the g it may be used with
+}
+
+var c06GroupList []c06Group
+
+// c06Groups: the groups, Telegram's first. A value that fails the safe-prime test is left out (and noted).
+func c06Groups(g *G) []c06Group {
+	if c06GroupList != nil {
+		return c06GroupList
+	}
+	pow := func(n uint) *big.Int { return new(big.Int).Lsh(big.NewInt(1), n) }
+	modp := new(big.Int).Sub(pow(2048), pow(1984))
+	modp.Sub(modp, big.NewInt(1))
+	modp.Add(modp, new(big.Int).Lsh(new(big.Int).Add(c06ScaledPi(1918), big.NewInt(124476)), 64))
+	ffdhe := new(big.Int).Sub(pow(2048), pow(1984))
+	ffdhe.Add(ffdhe, new(big.Int).Lsh(new(big.Int).Add(c06ScaledE(1918), big.NewInt(560316)), 64))
+	ffdhe.Sub(ffdhe, big.NewInt(1))
+	for _, c := range []c06Group{{Name: "telegram", P: hsTelegramPrime()}, {Name: "rfc3526-14", P: modp}, {Name: "rfc7919-ffdhe2048", P: ffdhe}} {
+		if !c06IsSafePrime2048(c.P) {
+			if g != nil {
+				g.Extra["not-a-2048-bit-safe-prime:"+c.Name] = true
+			}
+			continue
+		}
+		for gv := 2; gv <= 7; gv++ {
+			if c06GOk(c.P, gv) {
+				c.Gs = append(c.Gs, gv)
+			}
+		}
+		c06GroupList = append(c06GroupList, c)
+	}
+	return c06GroupList
+}
+
+// c06InGroup: the exchange in that group, with a g that fits it
+func c06InGroup(r *Rand, c *hsCase, grp c06Group) {
+	c.S.DhPrime = new(big.Int).Set(grp.P)
+	c.S.G = int32(grp.Gs[r.Intn(len(grp.Gs))])
 }
 
 // c06ForceCorner: rejection sampling of the free secrets until the named value has exactly z
@@ -218,6 +435,29 @@ func c06Gen(g *G) {
 		return pool[turn%len(pool)]
 	}
 	key := next()
+	// (a00) other Diffie-Hellman groups x what the application does with the Warnings channel: every group with every
+	// channel mode (one exchange each, as one-exchange sequences: the channel is part of the client's configuration)
+	groups := c06Groups(g)
+	for _, grp := range groups {
+		for _, wm := range hsWarnModes {
+			c := hsRandomCase(r, next())
+			c06InGroup(r, c, grp)
+			c06RelClock(r, c)
+			sm := "notfound"
+			if wm != "nil" && r.Intn(3) == 0 {
+				sm = "nil"
+			}
+			g.Emit(c06SeqOp("seq:group-"+grp.Name+"-warnings-"+wm, "fresh", []string{sm + "+" + wm}, []*hsCase{c}), "honest", "sequence", "group="+grp.Name, "warnings="+wm)
+		}
+	}
+	// (a01) servers whose clock differs from the client's by every offset a client stamping its messages with its own
+	// clock is compatible with
+	for i, off := range c06ClockOffsets() {
+		c := hsRandomCase(r, next())
+		c06InGroup(r, c, groups[i%len(groups)])
+		c.S.TimeRel, c.S.ServerTime = true, int32(off)
+		g.Emit(c.op(fmt.Sprintf("honest:clock%+d", off)), "honest", "clock")
+	}
 	// (a0) first of all, sequences in one operation: other keys one after another, the caller's key object kept
 	// or not, and the three ways a session storage says "nothing stored"
 	for i, ko := range hsKeyObjModes {
@@ -323,6 +563,12 @@ func c06Gen(g *G) {
 	n := g.N(4, 2000)
 	for i := 0; i < n; i++ {
 		c := hsRandomCase(r, next())
+		if r.Intn(2) == 0 {
+			c06InGroup(r, c, groups[r.Intn(len(groups))])
+		}
+		if r.Intn(4) > 0 {
+			c06RelClock(r, c)
+		}
 		// the server's own fingerprint anywhere in the list it offers
 		if n := len(c.S.ExtraFps); n > 0 {
 			cut := r.Intn(n + 1)
@@ -331,7 +577,8 @@ func c06Gen(g *G) {
 		if i%8 == 7 {
 			sm := hsStoreModes[r.Intn(len(hsStoreModes))]
 			ko := hsKeyObjModes[r.Intn(len(hsKeyObjModes))]
-			g.Emit(c06SeqOp("seq:random", ko, []string{sm, "notfound"}, []*hsCase{c, hsRandomCase(r, next())}), "honest", "sequence", "store="+sm, "sequence:keyobj="+ko)
+			wm := hsWarnModes[r.Intn(len(hsWarnModes))]
+			g.Emit(c06SeqOp("seq:random", ko, []string{sm + "+" + wm, "notfound"}, []*hsCase{c, hsRandomCase(r, next())}), "honest", "sequence", "store="+sm, "sequence:keyobj="+ko, "warnings="+wm)
 			continue
 		}
 		g.Emit(c.op("honest:random"), "honest", fmt.Sprintf("fingerprints:before=%d,after=%d", len(c.S.ExtraFps), len(c.S.LaterFps)))
@@ -340,8 +587,12 @@ func c06Gen(g *G) {
 
 // c06One: one exchange of the real client (its session storage in the given mode, configured with the key
 // object pub) with a conformant server holding c.S.
-func c06One(c *hsCase, storeMode string, pub *rsa.PublicKey) (*hsRun, string) {
+func c06One(c *hsCase, cfg string, pub *rsa.PublicKey) (*hsRun, string) {
+	storeMode, warnMode := c06SplitCfg(cfg)
+	hsWarnMode = warnMode
 	run := hsExchangeOn(storeMode, &c.D, pub, &c.S, nil, true)
+	hsWarnMode = ""
+	c06LastClock = append(c06LastClock, c06ClockVerdict(c, run))
 	if len(run.Srv.Enc) > 0 && run.Srv.AuthKey != nil {
 		salt, body, why := hsOpenClientFrame(run.Srv.AuthKey, run.Srv.Enc[0])
 		if why != "" {
@@ -377,7 +628,7 @@ func c06ParseSeq(op []string) (keyobj string, steps []c06Step, ok bool) {
 	}
 	for i := 0; i < k; i++ {
 		part := op[4+19*i : 4+19*(i+1)]
-		if part[0] != "notfound" && part[0] != "nil" && part[0] != "fail" {
+		if !c06CfgOk(part[0]) {
 			return "", nil, false
 		}
 		c, ok := c06Parse(append([]string{"c06.hs", "x"}, part[1:]...))
@@ -390,7 +641,7 @@ func c06ParseSeq(op []string) (keyobj string, steps []c06Step, ok bool) {
 }
 
 func c06Exec(op []string) string {
-	c06Last = nil
+	c06Last, c06LastClock = nil, nil
 	if len(op) == 0 {
 		return "bad-op"
 	}
@@ -429,8 +680,14 @@ func c06Judge(op []string, out string) string {
 	if len(runs) == 0 {
 		return "no run recorded"
 	}
+	clock := func(i int) string {
+		if i < len(c06LastClock) {
+			return c06LastClock[i]
+		}
+		return ""
+	}
 	if op[0] == "c06.hs" {
-		return strings.Join(c06JudgeRun(runs[0], "notfound"), "; ")
+		return strings.Join(c06JudgeRun(runs[0], "notfound", clock(0)), "; ")
 	}
 	keyobj, steps, ok := c06ParseSeq(op)
 	if !ok || len(steps) != len(runs) {
@@ -438,15 +695,17 @@ func c06Judge(op []string, out string) string {
 	}
 	var bad []string
 	for i, st := range steps {
-		for _, b := range c06JudgeRun(runs[i], st.store) {
-			bad = append(bad, fmt.Sprintf("exchange %d of %d in this process (server key %s…, key object %s, session storage says %q): %s",
-				i+1, len(steps), hexD(st.c.S.Key.N.Bytes()[:4]), keyobj, st.store, b))
+		for _, b := range c06JudgeRun(runs[i], st.store, clock(i)) {
+			sm, wm := c06SplitCfg(st.store)
+			bad = append(bad, fmt.Sprintf("exchange %d of %d in this process (server key %s…, dh_prime %s…, g %d, key object %s, session storage says %q, Warnings channel %s): %s",
+				i+1, len(steps), hexD(st.c.S.Key.N.Bytes()[:4]), hexD(st.c.S.DhPrime.Bytes()[:4]), st.c.S.G, keyobj, sm, wm, b))
 		}
 	}
 	return strings.Join(bad, "; ")
 }
 
-func c06JudgeRun(run *hsRun, storeMode string) []string {
+func c06JudgeRun(run *hsRun, cfg string, clock string) []string {
+	storeMode, _ := c06SplitCfg(cfg)
 	var bad []string
 	add := func(f string, a ...interface{}) { bad = append(bad, fmt.Sprintf(f, a...)) }
 	if storeMode == "fail" {
@@ -503,6 +762,8 @@ func c06JudgeRun(run *hsRun, storeMode string) []string {
 				add("the first encrypted request is not readable by the server: %s", run.FirstEnc)
 			case run.FirstEnc != fmt.Sprintf("readable salt=%d body=%s", run.Srv.Salt, hexD(want)):
 				add("the first encrypted request opens to %s, expected salt %d and the ping", run.FirstEnc, run.Srv.Salt)
+			case clock != "":
+				add("%s", clock)
 			}
 		}
 	}
